@@ -75,7 +75,7 @@ class Runner:
     def __init__(self, sc, hooks: Optional[Dict[str, Callable]] = None):
         self.sc = sc
         self.c = Cluster(sc['names'], sc['phens'], cache=sc.get('cache', 1000), periods=sc.get('periods'),
-                         with_action=sc.get('with_action', True), quiet=sc.get('quiet', ()))
+                         with_action=sc.get('with_action', True), quiet=sc.get('quiet', ()), bomb=sc.get('bomb', ()))
         self.obs: Dict[str, Obs] = {n: Obs() for n in sc['names']}
         self.violations: List[Tuple[str, str, int]] = []   # (sig, what, step)
         self.step = -1
